@@ -330,8 +330,10 @@ def lint_usage_loop(run, twin=None):
             return not getattr(other, 'used', False) and not qi.added
         is_locals_builtin = ident == 'locals' and isinstance(val, Nm.RuntimeName)
         if is_locals_builtin:
-            # locals(): every name of the scope visible there counts as read
-            return getattr(other, 'used', False) is True
+            # locals(): every name of the scope visible there counts as read - one bound in several branches with all its alternatives - and
+            # no name of another scope
+            return (getattr(other, 'used', False) is True and all(getattr(b, 'used', False) is True for b in holder['branchy'])
+                    and not getattr(holder['outer'], 'used', False))
         marked = all(getattr(a, 'used', False) is True for a in alts)
         others_clean = not getattr(other, 'used', False)
         want_q = [ident] if (type(val) is Nm.ImportedName and val.qualified) else []
@@ -399,6 +401,13 @@ def lint_usage_loop(run, twin=None):
                 pass
             sc = Sc()
             other.scope = sc
+            # a local bound in two branches, and a name of an enclosing scope
+            branchy = [Nm.AssignedName('branchy', (2, 0), (2, 0), None), Nm.AssignedName('branchy', (4, 0), (4, 0), None)]
+            for b_ in branchy:
+                b_.scope = sc
+            outer = Nm.AssignedName('outer', (1, 0), (1, 0), None)
+            outer.scope = Sc()
+            holder.update(branchy=branchy, outer=outer)
             for a in alts or []:
                 if not isinstance(a, str):
                     a.scope = sc
@@ -409,7 +418,7 @@ def lint_usage_loop(run, twin=None):
 
                 def names_at(self, loc):
                     Fl.asked.append(loc)
-                    t = {'other': other}
+                    t = {'other': other, 'branchy': Nm.MultiName(list(branchy)), 'outer': outer}
                     if val is not None:
                         t[ident] = val
                     return t
@@ -424,8 +433,9 @@ def lint_usage_loop(run, twin=None):
                 holder['want'] = None
             if twin and alts and any(isinstance(a, str) for a in alts):
                 holder['want'] = ('E02', 'Undefined name: %s' % ident)
-            for a in (alts or []) + [other]:
-                a.__dict__.pop('used', None)
+            for a in (alts or []) + [other, outer] + branchy:
+                if not isinstance(a, str):
+                    a.__dict__.pop('used', None)
             return f(None, Src(), 'f.py')
 
         def on_path(p, out, label=label):
